@@ -1027,6 +1027,8 @@ pub struct RawTriple {
     /// derive the pattern from a triple of the dataset (lifting constants to variables consistently)
     pub from_data: bool,
     pub sel: u16,
+    /// 0 = free, 1 = star (subject of the previous pattern), 2 = chain (subject = previous object)
+    pub chain: u8,
     pub t: [RawTerm; 3],
 }
 
@@ -1060,13 +1062,31 @@ fn raw_term(var_weight: u32) -> impl Strategy<Value = RawTerm> {
 }
 
 fn raw_triple() -> impl Strategy<Value = RawTriple> {
-    (proptest::bool::weighted(0.75), any::<u16>(), raw_term(70), raw_term(15), raw_term(60)).prop_map(|(from_data, sel, s, p, o)| RawTriple { from_data, sel, t: [s, p, o] })
+    (proptest::bool::weighted(0.88), any::<u16>(), 0u8..10, raw_term(70), raw_term(15), raw_term(60)).prop_map(|(from_data, sel, c, s, p, o)| RawTriple {
+        from_data,
+        sel,
+        chain: match c {
+            0..=4 => 0,
+            5..=7 => 1,
+            _ => 2,
+        },
+        t: [s, p, o],
+    })
 }
 
 fn raw_bgp(max: usize) -> impl Strategy<Value = Vec<RawTriple>> {
     // small BGPs dominate: 1 (40%), 2 (35%), 3 (25%)
     (0u8..20, proptest::collection::vec(raw_triple(), max)).prop_map(move |(w, mut v)| {
-        let n = if w < 8 { 1 } else if w < 15 { 2 } else { 3 };
+        let n = if max > 3 {
+            // join-heavy configuration (C02): 2..=max patterns
+            2 + (w as usize * (max - 1)) / 20
+        } else if w < 8 {
+            1
+        } else if w < 15 {
+            2
+        } else {
+            3
+        };
         v.truncate(n.min(max).max(1));
         v
     })
@@ -1076,9 +1096,9 @@ fn fseed() -> impl Strategy<Value = FSeed> {
     (0u8..12, any::<u16>(), any::<u16>(), any::<u16>(), 0u8..6).prop_map(|(shape, a, b, c, op)| FSeed { shape, a, b, c, op })
 }
 
-fn raw_leaf() -> impl Strategy<Value = RawElem> {
+fn raw_leaf(bgp_max: usize) -> impl Strategy<Value = RawElem> {
     prop_oneof![
-        6 => raw_bgp(3).prop_map(RawElem::Bgp),
+        6 => raw_bgp(bgp_max).prop_map(RawElem::Bgp),
         2 => fseed().prop_map(RawElem::Filter),
         1 => (any::<u16>(), any::<u16>(), 0u8..4).prop_map(|(a, b, k)| RawElem::Bind(a, b, k)),
         1 => (1u8..=2, proptest::collection::vec(proptest::collection::vec((proptest::bool::weighted(0.25), any::<u16>()), 2), 1..=3), any::<u16>())
@@ -1087,20 +1107,24 @@ fn raw_leaf() -> impl Strategy<Value = RawElem> {
 }
 
 pub fn raw_elems(depth: u32, allow_sub: bool) -> BoxedStrategy<Vec<RawElem>> {
-    let leaf = raw_leaf();
+    raw_elems_cfg(depth, allow_sub, 3)
+}
+
+pub fn raw_elems_cfg(depth: u32, allow_sub: bool, bgp_max: usize) -> BoxedStrategy<Vec<RawElem>> {
+    let leaf = raw_leaf(bgp_max);
     if depth == 0 {
         return proptest::collection::vec(leaf, 1..=3).boxed();
     }
-    let inner = raw_elems(depth - 1, allow_sub);
-    let inner2 = raw_elems(depth - 1, allow_sub);
-    let inner3 = raw_elems(depth - 1, allow_sub);
+    let inner = raw_elems_cfg(depth - 1, allow_sub, bgp_max);
+    let inner2 = raw_elems_cfg(depth - 1, allow_sub, bgp_max);
+    let inner3 = raw_elems_cfg(depth - 1, allow_sub, bgp_max);
     let sub: BoxedStrategy<RawElem> = if allow_sub {
-        raw_select(depth - 1, false).prop_map(|s| RawElem::Sub(Box::new(s))).boxed()
+        raw_select_cfg(depth - 1, false, bgp_max).prop_map(|s| RawElem::Sub(Box::new(s))).boxed()
     } else {
         raw_bgp(2).prop_map(RawElem::Bgp).boxed()
     };
     let node = prop_oneof![
-        5 => raw_leaf(),
+        5 => raw_leaf(bgp_max),
         2 => proptest::collection::vec(inner.clone(), 2..=3).prop_map(RawElem::Union),
         2 => (any::<bool>(), any::<u16>(), inner2).prop_map(|(v, s, b)| RawElem::Graph(v, s, b)),
         1 => inner3.prop_map(RawElem::Group),
@@ -1110,8 +1134,12 @@ pub fn raw_elems(depth: u32, allow_sub: bool) -> BoxedStrategy<Vec<RawElem>> {
 }
 
 pub fn raw_select(depth: u32, top: bool) -> BoxedStrategy<RawSelect> {
+    raw_select_cfg(depth, top, 3)
+}
+
+pub fn raw_select_cfg(depth: u32, top: bool, bgp_max: usize) -> BoxedStrategy<RawSelect> {
     (
-        raw_elems(depth, true),
+        raw_elems_cfg(depth, true, bgp_max),
         proptest::bool::weighted(0.25),
         0u8..10,
         proptest::collection::vec(any::<u16>(), 1..=3),
@@ -1120,7 +1148,7 @@ pub fn raw_select(depth: u32, top: bool) -> BoxedStrategy<RawSelect> {
         proptest::option::weighted(0.3, 0u8..6),
         proptest::collection::vec(0u8..5, 0..=2),
         proptest::collection::vec(0u8..5, 0..=2),
-        (proptest::bool::weighted(0.35), proptest::bool::weighted(0.3)),
+        (proptest::bool::weighted(0.2), proptest::bool::weighted(0.3)),
     )
         .prop_map(move |(body, distinct, proj_mode, proj_sel, agg, order, limit, from, from_named, (use_from, use_order))| RawSelect {
             body,
@@ -1252,6 +1280,9 @@ pub struct Builder<'d> {
     fresh: u32,
     data: &'d DataSet,
     consts: Vec<Tm>,
+    /// injective constant -> variable assignment used when lifting data triples into patterns, so that
+    /// the data itself is a witness for all data-derived patterns of one query
+    lift_map: std::cell::RefCell<BTreeMap<Tm, String>>,
 }
 
 impl<'d> Builder<'d> {
@@ -1261,12 +1292,29 @@ impl<'d> Builder<'d> {
             consts.insert(t[0].clone());
             consts.insert(t[2].clone());
         }
-        Builder { fresh: 0, data, consts: consts.into_iter().collect() }
+        Builder { fresh: 0, data, consts: consts.into_iter().collect(), lift_map: Default::default() }
+    }
+    pub fn data_ref(&self) -> &'d DataSet {
+        self.data
     }
     /// consistent constant -> variable lifting (different constants may share a variable)
-    fn lift(&self, c: &Tm, salt: u16) -> String {
-        let i = self.consts.iter().position(|x| x == c).unwrap_or(0);
-        VARS[(i + (salt as usize % 2) * 3) % VARS.len()].to_string()
+    fn lift(&self, c: &Tm, salt: u16) -> Option<String> {
+        let mut m = self.lift_map.borrow_mut();
+        if let Some(v) = m.get(c) {
+            return Some(v.clone());
+        }
+        if m.len() >= VARS.len() {
+            // out of variables: one time in four reuse a variable (may make the pattern unsatisfiable), else keep the constant
+            if salt % 4 == 0 {
+                let i = self.consts.iter().position(|x| x == c).unwrap_or(0);
+                return Some(VARS[i % VARS.len()].to_string());
+            }
+            return None;
+        }
+        let v = VARS[(m.len() + salt as usize % 2) % VARS.len()].to_string();
+        let v = if m.values().any(|x| *x == v) { VARS.iter().map(|x| x.to_string()).find(|x| !m.values().any(|y| y == x)).unwrap() } else { v };
+        m.insert(c.clone(), v.clone());
+        Some(v)
     }
     fn graph_triples(&self, scope: &Scope) -> Vec<&'d Triple3> {
         match scope {
@@ -1294,6 +1342,7 @@ impl<'d> Builder<'d> {
     fn bgp(&self, ts: &[RawTriple], scope: &Scope) -> Vec<[PT; 3]> {
         let pool = self.graph_triples(scope);
         let salt = ts.first().map(|t| t.sel).unwrap_or(0);
+        let mut prev: Option<[PT; 3]> = None;
         ts.iter()
             .map(|rt| {
                 let t = &rt.t;
@@ -1305,7 +1354,10 @@ impl<'d> Builder<'d> {
                             if i == 1 {
                                 PT::Var(VARS[pick_idx(t[i].v, VARS.len())].to_string())
                             } else {
-                                PT::Var(self.lift(&d[i], salt))
+                                match self.lift(&d[i], salt) {
+                                    Some(v) => PT::Var(v),
+                                    None => PT::C(d[i].clone()),
+                                }
                             }
                         } else {
                             PT::C(d[i].clone())
@@ -1322,6 +1374,20 @@ impl<'d> Builder<'d> {
                     let a_is_h = matches!(&tr[0], PT::Var(a) if a == "h");
                     tr[2] = PT::Var(if a_is_h { "f" } else { "h" }.to_string());
                 }
+                if let Some(p) = &prev {
+                    match rt.chain {
+                        1 => tr[0] = p[0].clone(),
+                        2 if !matches!(&p[2], PT::C(Tm::Lit(_)) | PT::C(Tm::Num(_))) && !is_val_pred(&p[1]) => tr[0] = p[2].clone(),
+                        _ => {}
+                    }
+                    if matches!((&tr[0], &tr[2]), (PT::Var(a), PT::Var(b)) if a == b) && is_val_pred(&tr[1]) {
+                        tr[2] = PT::Var("h".to_string());
+                        if matches!(&tr[0], PT::Var(a) if a == "h") {
+                            tr[2] = PT::Var("f".to_string());
+                        }
+                    }
+                }
+                prev = Some(tr.clone());
                 tr
             })
             .collect()
@@ -1405,7 +1471,13 @@ impl<'d> Builder<'d> {
                     let name = if *is_var {
                         GName::Var(["g", "a", "b"][pick_idx(*sel, 3)].to_string())
                     } else {
-                        GName::Iri(GRAPHS[pick_idx(*sel, GRAPHS.len())].to_string())
+                        // mostly graphs that exist in the dataset, sometimes the empty / never-created ones
+                        let existing: Vec<&String> = self.data.named.iter().map(|(g, _)| g).collect();
+                        if *sel % 5 != 0 && !existing.is_empty() {
+                            GName::Iri(existing[pick_idx(*sel, existing.len())].clone())
+                        } else {
+                            GName::Iri(GRAPHS[pick_idx(*sel, GRAPHS.len())].to_string())
+                        }
                     };
                     let mut inner_outer = outer_graph_vars.clone();
                     if let GName::Var(v) = &name {
@@ -1429,14 +1501,19 @@ impl<'d> Builder<'d> {
                         }
                     }
                     let n = vars.len();
+                    let lifted: Vec<Option<Tm>> = vars.iter().map(|v| self.lift_map.borrow().iter().find(|(_, x)| *x == v).map(|(c, _)| c.clone())).collect();
                     let rows: Vec<Vec<Option<Tm>>> = rows
                         .iter()
-                        .map(|r| {
+                        .enumerate()
+                        .map(|(ri, r)| {
                             (0..n)
                                 .map(|i| {
                                     let (undef, c) = r[i];
                                     if undef {
                                         None
+                                    } else if ri == 0 && lifted[i].is_some() && c % 4 != 0 {
+                                        // keep the witness assignment of data-derived patterns alive
+                                        lifted[i].clone()
                                     } else {
                                         Some(match c % 5 {
                                             0 | 1 => subj(c as usize / 5),
